@@ -178,6 +178,11 @@ func (w *World) verifyFunctionPass(pi *PkgInfo, fn *ssa.Function, c *Contract, r
 		u.retVals = vals
 		env := u.specEnv(fr, merged)
 		bindResults(env.vars, fn, vals)
+		for i, en := range c.Hints {
+			t := u.evalClauseIn(env, en)
+			u.oblige(merged, "hint", fmt.Sprintf("hint %d: %s", i+1, en.Text), fn.Pos(), t, en.Tag)
+			u.assume(merged, t, "hint (proved above): "+en.Text)
+		}
 		for i, en := range c.Ensures {
 			t := u.evalClauseIn(env, en)
 			u.oblige(merged, "ensures", fmt.Sprintf("postcondition %d: %s", i+1, en.Text), fn.Pos(), t, en.Tag)
